@@ -134,6 +134,64 @@ pub fn check_claim2(depth: u8, lon: f64, lat: f64, r: f64, tab: &C2vTab, part: &
   None
 }
 
+
+/// claim 2 at any depth, local form: the candidate cells are the cells within `steps` lattice
+/// steps of the cell of the position (the subject's own hash, checked by C01), enough for radii of
+/// a few cells; the bound must cover every candidate whose centre lies within the radius.
+pub fn check_claim2_local(depth: u8, lon: f64, lat: f64, r: f64, steps: usize, part: &mut Part) -> Option<Viol> {
+  let c0 = match guarded(move || cdshealpix::nested::hash(depth, lon, lat)) {
+    Ok(c) if c < n_hash(depth) => c,
+    _ => return None,
+  };
+  let mut seen: Vec<u64> = vec![c0];
+  let mut frontier = vec![c0];
+  for _ in 0..steps {
+    let mut next = vec![];
+    for &h in &frontier {
+      for (_, nb) in ref_neighbours(depth, h) {
+        if !seen.contains(&nb) {
+          seen.push(nb);
+          next.push(nb);
+        }
+      }
+    }
+    frontier = next;
+  }
+  let n = nside(depth) as f64;
+  let mut worst: Option<(u64, f64)> = None;
+  for &h in &seen {
+    let (cx, cy) = center_lattice(depth, h);
+    let (lc, bc) = ref_unproj(cx as f64 / n, cy as f64 / n);
+    if ang_dist(lon, lat, lc, bc) <= r * (1.0 - 1e-9) {
+      let t = true_c2v(depth, h);
+      if worst.map(|w| t > w.1).unwrap_or(true) {
+        worst = Some((h, t));
+      }
+    }
+  }
+  let (h, truth) = worst?;
+  let from = depth.saturating_sub(3);
+  let b1 = guarded(move || cdshealpix::largest_center_to_vertex_distance_with_radius(depth, lon, lat, r));
+  let b2 = guarded(move || cdshealpix::largest_center_to_vertex_distances_with_radius(depth, depth + 1, lon, lat, r));
+  let b3 = guarded(move || cdshealpix::largest_center_to_vertex_distances_with_radius(from, depth + 1, lon, lat, r));
+  let (b1, b2, b3) = match (b1, b2, b3) {
+    (Ok(a), Ok(b), Ok(c)) if b.len() == 1 && c.len() == (depth + 1 - from) as usize => (a, b, c),
+    (a, b, c) => {
+      return Some(Viol { api: "largest_center_to_vertex_distance(s)_with_radius".into(), kind: "panic".into(), case: case2(depth, lon, lat, r, 0, "local"), expected: "bounds (1 and depth + 1 - from values)".into(), actual: format!("{:?} {:?} {:?}", a, b.map(|v| v.len()), c.map(|v| v.len())) })
+    }
+  };
+  part.validated += 1;
+  part.outcome(b1.to_bits());
+  for (b, api) in [(b1, "largest_center_to_vertex_distance_with_radius"), (b2[0], "largest_center_to_vertex_distances_with_radius(depth, depth+1)"), (b3[b3.len() - 1], "largest_center_to_vertex_distances_with_radius(depth-3, depth+1)")] {
+    if !(b * (1.0 + SLACK) + ABS_SLACK >= truth) {
+      let mut case = case2(depth, lon, lat, r, h, api);
+      case["local_steps"] = json!(steps);
+      return Some(Viol { api: api.into(), kind: "not-a-bound".into(), case, expected: format!(">= {:e} (cell {}/{} has its centre within the radius)", truth, depth, h), actual: format!("{:e} (ratio true/bound = {})", b, truth / b) });
+    }
+  }
+  None
+}
+
 fn case3(lon: f64, lat: f64, r: f64) -> Value {
   json!({"claim": 3, "lon": f64_json(lon), "lat": f64_json(lat), "radius": f64_json(r)})
 }
@@ -289,6 +347,7 @@ pub fn run(ctx: &Ctx) -> i32 {
     C2(u8),
     C3(u8),
     C3Narrow(u8),
+    C2Local(u8),
   }
   let mut jobs = vec![];
   for d in 0..=d1 {
@@ -308,6 +367,11 @@ pub fn run(ctx: &Ctx) -> i32 {
   }
   for k in 0..30u8 {
     jobs.push(Job::C3(k));
+  }
+  // claim 2, local form, at deeper depths: cones of a fraction of a cell to a few cells around the
+  // cells next to the poles (first 4 rings) and around border-class cells
+  for d in if quick { vec![5u8, 6, 8, 12, 17, 22, 29] } else { (5u8..=29).collect::<Vec<u8>>() } {
+    jobs.push(Job::C2Local(d));
   }
   // claim 3 at the NARROWEST cells of a depth (located by exhaustive search): cones centred just
   // outside an edge of such a cell cross it entirely first
@@ -358,6 +422,32 @@ pub fn run(ctx: &Ctx) -> i32 {
         }
         if *d == 2 {
           part.sample(json!({"claim": 2, "depth": d, "lon": positions2[5].0, "lat": positions2[5].1, "radius": 0.2}));
+        }
+      }
+      Job::C2Local(d) => {
+        let n = nside(*d) as u32;
+        let mut cells: Vec<u64> = vec![];
+        for b in 0..4u8 {
+          for i in 0..4u32 {
+            for j in 0..4u32 {
+              cells.push(encode(*d, b, n - 1 - i, n - 1 - j));
+              cells.push(encode(*d, 8 + b, i, j));
+            }
+          }
+        }
+        let cls = class_cells(*d);
+        cells.extend(cls.iter().step_by(if quick { 37 } else { 11 }).cloned());
+        let inv = 1.0 / n as f64;
+        for h in cells {
+          for (px, py) in cell_points_plane(*d, h).iter().step_by(if quick { 2 } else { 1 }) {
+            let (lon, lat) = ref_unproj(*px, *py);
+            for f in [0.3, 0.62, 0.7, 1.0, 1.6, 2.4] {
+              part.stratum("claim2-local", 1, 3);
+              if let Some(v) = check_claim2_local(*d, lon, lat, f * inv, (f * 2.0) as usize + 3, &mut part) {
+                part.viol(v);
+              }
+            }
+          }
         }
       }
       Job::C3Narrow(k) => {
@@ -452,6 +542,9 @@ pub fn replay(case: &Value, findings: &Findings) -> Option<Viol> {
     1 => check_claim1(case["depth"].as_u64().unwrap() as u8, u64_from_json(&case["hash"]), &mut part),
     2 => {
       let d = case["depth"].as_u64().unwrap() as u8;
+      if let Some(st) = case.get("local_steps").and_then(|x| x.as_u64()) {
+        return check_claim2_local(d, f64_from_json(&case["lon"]), f64_from_json(&case["lat"]), f64_from_json(&case["radius"]), st as usize, &mut part);
+      }
       let tab = c2v_tab(d);
       check_claim2(d, f64_from_json(&case["lon"]), f64_from_json(&case["lat"]), f64_from_json(&case["radius"]), &tab, &mut part)
     }
